@@ -2,9 +2,32 @@
   EG.Driver.Line — model side of the `line.*` correspondence streams (harness/src/m_line.rs).
 -/
 import EG.Driver.Util
+import EG.Model.Line
 namespace EG.Driver
 open EG
 
-def handleLine (_stream : String) (_t : Toks) : Option String := none
+/-- Same digest as `pts_digest` in harness/src/m_line.rs. -/
+def ptsHash (ps : List Pt) : Nat :=
+  ps.foldl (fun h p =>
+    (h * 1000003 + ((p.x + 2147483648).toNat % 18446744073709551616) * 65599
+      + (p.y + 2147483648).toNat) % 18446744073709551616) 0
+
+def fmtPtsDigest (ps : List Pt) : String :=
+  if ps.length ≤ 64 then fmtPts ps
+  else
+    s!"n={ps.length} first={fmtOptPt ps.head?} last={fmtOptPt ps.getLast?} h={ptsHash ps}"
+
+def handleLine (stream : String) (t : Toks) : Option String :=
+  match stream with
+  | "line.points" =>
+    let (s, t) := t.pt
+    let (e, _) := t.pt
+    some (fmtPtsDigest (Line.points ⟨s, e⟩))
+  | "line.translate" =>
+    let (s, t) := t.pt
+    let (e, t) := t.pt
+    let (d, _) := t.pt
+    some (fmtPtsDigest (Line.points ((⟨s, e⟩ : Line).translate d)))
+  | _ => none
 
 end EG.Driver
